@@ -57,10 +57,12 @@ ShiftedDoc(da, db, k, n) ==
 Pad(row, width) == row \o Spaces(width - Len(row))
 RowOr(rows, i) == IF i \in 1..Len(rows) THEN rows[i] ELSE <<>>
 WidthOf(rows) == IF rows = <<>> THEN 0 ELSE SetMax({ Len(RStrip(rows[r])) : r \in 1..Len(rows) })
+\* (in display columns: rows are compared cell-expanded, a wide character taking two cells)
 SideBySide(a, b, j, at) ==
-  /\ at > WidthOf(a)                         \* at least one blank column between them
+  LET ca == CellRows(a) cb == CellRows(b) cj == CellRows(j) IN
+  /\ at > WidthOf(ca)                         \* at least one blank column between them
   /\ Len(j) = Max2(Len(a), Len(b))
-  /\ \A i \in 1..Len(j) : RStrip(j[i]) = RStrip(Pad(RStrip(RowOr(a, i)), at) \o RowOr(b, i))
+  /\ \A i \in 1..Len(j) : RStrip(cj[i]) = RStrip(Pad(RStrip(RowOr(ca, i)), at) \o RowOr(cb, i))
 \* j = a, then `gap` >= 1 blank rows, then b
 Stacked(a, b, j, gap) ==
   /\ gap >= 1
